@@ -90,6 +90,11 @@ impl<'a> Ctx<'a> {
                         self.complain("UNSAFE-DIFF", input, format!("[{name}] {} build: items {:?} flags {}, reference {:?}", vrt_api::features(), r.items, b.flags, exp.items), json!({}));
                     }
                 }
+                "C10" | "C11" => {
+                    if r.items != exp.items || r.end_pos != exp.end_pos {
+                        self.complain("LAYER2-DIFF", input, format!("[{name}] items {:?}, reference {:?}", r.items, exp.items), json!({}));
+                    }
+                }
                 "C02" => {
                     if errs(&r) != errs(&exp) {
                         self.complain("ERRORS", input, format!("[{name}] items {:?}, reference {:?}", r.items, exp.items), json!({}));
@@ -374,6 +379,11 @@ pub fn layer2(args: &Args, defs: &[Def], rep: &mut Report) {
     let results: Vec<(Vec<Violation>, u64, u64, BTreeMap<&'static str, u64>, usize, f64, serde_json::Value)> = defs
         .par_iter()
         .filter(|d| args.only.map_or(true, |o| o == d.e.idx))
+        .filter(|d| match prop {
+            "C10" => d.e.name.starts_with("c10_"),
+            "C11" => d.e.name.starts_with("c11_") || d.e.name.starts_with("subpat"),
+            _ => true,
+        })
         .map(|d| {
             let twin = if prop == "C12" { by_name.get(format!("{}__b", d.e.name).as_str()).copied() } else { None };
             let mut cx = Ctx::new(prop, d, twin);
